@@ -53,8 +53,8 @@ PROPS = {
         exhaustive={"thorough": "all pairs of strings of length <= 4 over {a,b,space} (121 x 121) x with_swap x spaces_insert_delete_only x normalized, code-point mode"},
         trusted=UNICODE + ["f64 division is compared with the model's exact rational with relative tolerance 1e-12"],
         min_nontrivial={"quick": 500, "thorough": 5000},
-        claim="PLACEHOLDER",
-        note="PLACEHOLDER",
+        claim="Theorems for all pairs of texts and all flag combinations: matrix_eq_rec (every cell of the flat matrix, filled with the code's candidate order and first-minimum tie-breaking, equals the recursive reference recurrence osaR), distance_le_script + distance_attained (the value is the minimum cost over all edit scripts: Levenshtein without swaps, optimal string alignment with, whitespace never substituted/transposed under spaces_insert_delete_only), distance_eq_zero_iff, normalized_range (<= longer length without sid; two empty strings give 0), normalized_range_sid_partial + sid_counterexample (F12), prefix_min. operations(): modelled with tie-breaking and backtrace, compared exactly with the implementation (script equality) and checked by the oracle (apply script = b, length = distance, sorted); the script theorem itself is not yet proved (partial).",
+        note="Backtrace/script correctness is covered by exact correspondence + oracle only (no theorem yet). Grapheme clusters come from the real CharString. f64 division compared against the exact rational with tolerance. F12 is an open known finding; D1 (NaN for two empty strings) was repaired by a fix: commit.",
     ),
     "C14": dict(
         anchors=[("src/data/preprocessing.rs", r"fn corrupt_whitespace\("), ("src/whitespace.rs", r"pub fn operations\("), ("src/whitespace.rs", r"pub fn repair\(")],
